@@ -7,5 +7,8 @@ def clientonly_accesslist : Bool := true
 def clientonly_ratelimit : Bool := true
 def clientonly_reflex : Bool := true
 def clientonly_views : Bool := true
+def pool_foreign_access : List Nat := []
+def pool_new_binds_own : Bool := true
+def pool_unpaired : List Nat := []
 
 end SdnsVerif.Gen.C17
